@@ -26,7 +26,8 @@ RULE = ('streams of 0-300 bytes over the alphabet {a, b, CR, LF} (delimiters of 
         'distinct = distinct (stream, composition, call list) cases in which a delimiter or size boundary '
         'straddled a chunk edge or a timeout was injected')
 ASSUMPTIONS = [
-    'the wrapped object only needs recv/send/settimeout/gettimeout (the class docstring); recv(n) returns at '
+    'the wrapped object only needs recv/send/settimeout/gettimeout (the class docstring); in part of the cases it also '
+    'offers recv_into() like a real socket; recv(n) returns at '
     'most n bytes of the current chunk; after the script the peer has closed (recv returns b"")',
     'recv(n) may return any non-empty prefix no longer than n (the model follows what was returned)',
     'sizes are >= 1; timeouts are scripted only when the BufferedSocket timeout is a positive number',
@@ -70,6 +71,7 @@ class ScriptedSocket(object):
         self.peer = bytearray()
         self.send_script = list(send_script)
         self.recv_calls = 0
+        self.full = False       # True: also offers recv_into(), like a real socket object
 
     def settimeout(self, t):
         self.timeout = t
@@ -96,6 +98,17 @@ class ScriptedSocket(object):
             self.clock.now += ev[2]
         out, self.pending = self.pending[:n], self.pending[n:]
         return out
+
+    def __getattr__(self, name):
+        # recv_into() exists only on the "full" flavour (hasattr() must be false otherwise)
+        if name == 'recv_into' and self.__dict__.get('full'):
+            return self._recv_into
+        raise AttributeError(name)
+
+    def _recv_into(self, buf, nbytes=0, flags=0):
+        data = self.recv(nbytes or len(buf))
+        buf[:len(data)] = data
+        return len(data)
 
     def send(self, data):
         if self.send_script:
@@ -159,6 +172,7 @@ def check_recv(c, st):
     stream = c['stream'].encode('latin-1')
     clock = Clock()
     sock = ScriptedSocket(c['script'], clock)
+    sock.full = bool(c.get('full_socket'))
     real_time = su.time
     su.time = clock
     try:
@@ -375,7 +389,40 @@ def check_ns(c, st):
     return None
 
 
+def expand_big(c):
+    """Tens of kilobytes per stream (buffers above 4 KiB / 64 KiB): mostly filler, delimiters far apart; the case is
+    stored as its parameters and rebuilt here."""
+    import random
+    r = random.Random(c['seed'])
+    n = c['n']
+    body = bytearray(r.choice(b'ab') for _ in range(n))
+    for pos in c['delims']:
+        if pos + 2 <= n:
+            body[pos:pos + 2] = b'\r\n'
+    stream = bytes(body).decode('latin-1')
+    script, pos = [], 0
+    for ch, ev in c['chunks']:
+        if pos >= n:
+            break
+        if ev:
+            script.append([ev])
+        script.append(['data', stream[pos:pos + ch], 0.01])
+        pos += ch
+    if pos < n:
+        script.append(['data', stream[pos:], 0])
+    return {'kind': 'recv', 'stream': stream, 'script': script, 'timeout': c['timeout'], 'recvsize': c['recvsize'],
+            'maxsize': c['maxsize'], 'calls': c['calls'], 'full_socket': c['full_socket']}
+
+
 def check(c, st):
+    if c['kind'] == 'recv-big':
+        res = check_recv(expand_big(c), st)
+        if res:
+            st.count('big_stream_failures')
+            return (res[0] + ':big-stream', res[1][:700] + ' ... (big case %r)' % (c,))
+        st.count('big_stream_cases')
+        st.peak('max_stream_bytes', c['n'])
+        return None
     return {'recv': check_recv, 'send': check_send, 'ns': check_ns}[c['kind']](c, st)
 
 
@@ -418,8 +465,56 @@ def gen_calls(r, stream):
     return calls
 
 
+def gen_big(r):
+    if r.random() < 0.4:
+        # a search that times out on a big buffer and is given up; other calls consume from the front and let the
+        # buffer grow again; the same search once more - the delimiter sits beyond what the first search covered but
+        # within the first as-many bytes of the new buffer
+        c1 = r.choice([4096, 5000, 8192, 9000, 70000])
+        k = r.choice([c1, c1, c1 // 2, c1 - 1, 1000])
+        j = r.randrange(0, max(1, k - 2))
+        grow = c1 + r.choice([2000, 3000, 9000])
+        n = c1 + grow + 3000
+        calls = [['until', '\r\n', 10 ** 6, r.random() < 0.4, {'abandon': 1}],
+                 r.choice([['size', k], ['recv', k], ['size', k]]), r.choice([['peek', 4], ['peek', 1], ['peek', grow - 10]]),
+                 ['until', '\r\n', 10 ** 6, False], ['until', '\r\n', 10 ** 6, True], ['close', 10 ** 6]]
+        return {'kind': 'recv-big', 'seed': r.randrange(10 ** 9), 'n': n, 'delims': [c1 + j, c1 + grow + 1500],
+                'chunks': [[c1, None], [grow, 'timeout'], [3000, r.choice([None, 'timeout'])]],
+                'calls': calls, 'timeout': 0.5, 'recvsize': 131072, 'maxsize': 10 ** 6,
+                'full_socket': r.random() < 0.5}
+    n = r.choice([5000, 9000, 20000, 70000, 140000, 200000])
+    ndel = r.choice([1, 2, 3, 6])
+    delims = sorted(r.randrange(n) for _ in range(ndel)) + ([n - 2] if r.random() < 0.5 else [])
+    chunks = []
+    total = 0
+    while total < n:
+        ch = r.choice([1000, 1500, 4096, 4097, 8192, 9000, 65536, 70000])
+        chunks.append([ch, r.choice([None, None, None, 'timeout', 'timeout', 'oserror'])])
+        total += ch
+    calls = []
+    for _ in range(r.randint(2, 9)):
+        k = r.choices(['until', 'size', 'peek', 'recv', 'close'], [10, 6, 3, 4, 1])[0]
+        if k == 'until':
+            calls.append(['until', '\r\n', r.choice([10 ** 6, 10 ** 6, 5000, 70000, 4096]), r.random() < 0.4])
+            if r.random() < 0.5:
+                calls[-1] = calls[-1] + [{'abandon': r.choice([1, 1, 2])}]
+        elif k in ('size', 'peek'):
+            calls.append([k, r.choice([1, 100, 3000, 4096, 5000, 65535, 65536, 70000, 150000, n, n + 1])])
+            if r.random() < 0.3:
+                calls[-1] = calls[-1] + [{'abandon': 1}]
+        elif k == 'recv':
+            calls.append(['recv', r.choice([1, 4096, 65536, 100000])])
+        else:
+            calls.append(['close', r.choice([65535, 65536, 10 ** 6, n, n - 1])])
+    return {'kind': 'recv-big', 'seed': r.randrange(10 ** 9), 'n': n, 'delims': delims, 'chunks': chunks, 'calls': calls,
+            'timeout': r.choice([5.0, 0.5]), 'recvsize': r.choice([4096, 8192, 65536, 1000]), 'maxsize': 10 ** 6,
+            'full_socket': r.random() < 0.6}
+
+
 def gen(r):
     x = r.random()
+    if x < 0.004:
+        return gen_big(r)
     if x < 0.72:
         n = r.choice([0, 1, 2, 3, 5, 8, 12, 20, 40, 100, 300])
         stream = rbytes(r, n)
@@ -439,7 +534,7 @@ def gen(r):
             calls = [(cl + [{'abandon': r.choice([1, 1, 2])}]) if (cl[0] != 'recv' and r.random() < 0.35) else cl
                      for cl in calls]
         return {'kind': 'recv', 'stream': stream, 'script': script, 'timeout': timeout,
-                'recvsize': r.choice([1, 2, 3, 4, 8, 64, 4096]), 'calls': calls}
+                'recvsize': r.choice([1, 2, 3, 4, 8, 64, 4096]), 'calls': calls, 'full_socket': r.random() < 0.3}
     if x < 0.87:
         calls = []
         for _ in range(r.randint(1, 8)):
